@@ -23,7 +23,7 @@ func (p *Path) symInt(name string, lo, hi int64) *smt.T {
 		return t
 	}
 	n, _ := p.freshName(name)
-	t := smt.VarRange(n, lo, hi)
+	t := p.regVar(smt.VarRange(n, lo, hi))
 	p.newInput(name, "int", t)
 	p.addPC(smt.InRange(t, lo, hi))
 	return t
@@ -31,7 +31,7 @@ func (p *Path) symInt(name string, lo, hi int64) *smt.T {
 
 func (p *Path) symBool(name string) *smt.T {
 	n, _ := p.freshName(name)
-	t := smt.Var(n, smt.Bool)
+	t := p.regVar(smt.Var(n, smt.Bool))
 	p.newInput(name, "bool", t)
 	return t
 }
@@ -97,7 +97,7 @@ func registerIntrinsics(e *Engine) {
 		p := fr.p
 		alg := concStr(p.conc(a[1].(Str)))
 		n, _ := p.freshName(concStr(a[0]))
-		id := smt.Var(n, smt.Int)
+		id := p.regVar(smt.Var(n, smt.Int))
 		p.newInput(concStr(a[0]), "digest:"+alg, id)
 		p.eng.noteUse("model: symbolic digests are opaque tokens (alg:hex), distinct from every literal string")
 		return digestStr(alg, id)
@@ -127,6 +127,15 @@ func registerIntrinsics(e *Engine) {
 	})
 	reg("zzSymbolic", func(fr *Frame, a []Value) Value { return smt.True })
 	reg("zzYield", func(fr *Frame, a []Value) Value { fr.p.yield(); return nil })
+	reg("zzMerge", func(fr *Frame, a []Value) Value {
+		fr.p.eng.noteUse("merge: pure calls are explored locally and merged into ite/finite-domain values")
+		return fr.p.mergedCall(fr, a[0], nil)
+	})
+	reg("zzSummarize", func(fr *Frame, a []Value) Value {
+		fr.p.summarize[concStr(a[0])] = true
+		fr.p.eng.noteUse("merge: calls of " + concStr(a[0]) + " are summarised (explored locally, post-state of pointer arguments merged)")
+		return nil
+	})
 	reg("zzPreempt", func(fr *Frame, a []Value) Value {
 		fr.p.preempt = int(concI(a[0]))
 		fr.p.eng.noteUse(fmt.Sprintf("tasks: up to %d forced pre-emptions at sync.Mutex.Unlock", fr.p.preempt))
